@@ -2,7 +2,7 @@ from lanes import *  # noqa
 
 PROP = {
         "level": "exploration",
-        "level_text": "Seeded exploration with a reference model as oracle: thousands (quick) to 10^5 (thorough) generated span trees with a seeded sampler table are executed through the real #[emit::span] / emit::info! macros on four builds of the trace-context runtime (generic Runtime and emit_traceparent::setup_with_sampler in an AmbientSlot, each with and without in_sampled_trace_filter(true)); roots start with no header, under sampled / unsampled / invalid headers pushed with Traceparent::push / push(tp, tracestate), headers are pushed around arbitrary children (other trace, same trace, invalid), nodes carry mismatched explicit trace ids, children run on other threads (captured frames and fresh threads under a header formatted from Traceparent::current()) and as async siblings under seeded poll interleavings. The sampler log, every emitted span / event and Traceparent::current() read at every program point are compared with a current-traceparent model written from the statement. Held-on-what-was-observed over the generated trees, tables and schedules, not a proof.",
+        "level_text": "Seeded exploration with a reference model as oracle: thousands (quick) to 10^5 (thorough) generated span trees with a seeded sampler table are executed through the real #[emit::span] / emit::info! macros on four builds of the trace-context runtime (generic Runtime and emit_traceparent::setup_with_sampler in an AmbientSlot, each with and without in_sampled_trace_filter(true), plus eight runtimes whose TraceparentCtxt sits behind a forwarding wrapper: AssertInternal, &, Box, Arc, Option, Box<dyn ErasedCtxt> and two stacked pairs); roots start with no header, under sampled / unsampled / invalid headers pushed with Traceparent::push / push(tp, tracestate), headers are pushed around arbitrary children (other trace, same trace, invalid), nodes carry mismatched explicit trace ids, children run on other threads (captured frames and fresh threads under a header formatted from Traceparent::current()) and as async siblings under seeded poll interleavings. The sampler log, every emitted span / event and Traceparent::current() read at every program point are compared with a current-traceparent model written from the statement. Held-on-what-was-observed over the generated trees, tables and schedules, not a proof.",
         "level_note": "Trusts the model in harness/mon/src/bin/c18.rs and the interpreter in harness/mon/src/shared/spantree.rs. in_sampled_trace_filter(false) and call-site `when:` are out of scope by design (DESIGN.md C18/U); partially invalid headers (only one of the ids zero) are not generated; events inside an unsampled trace WITHOUT the sampled-trace filter are unconstrained.",
         "technique": "runtime monitoring: span-tree interpreter on the trace-context runtime + sampler log + current-traceparent reference model at every program point; Miri lane (raw pointer in TraceparentCtxtProps, erased frames)",
         "assumptions": [
